@@ -1,10 +1,11 @@
 """C14 — diagnostics point at the offending construct in the user's own file."""
 
-THEOREM_MODULES = ["Hcl.Theorems.C14"]
+THEOREM_MODULES = ["Hcl.Theorems.C14", "Hcl.Tie.PinsIo"]
 THEOREMS = {"Hcl.Theorems.C14": ["C14_file", "C14_file_builtin", "C14_line", "C14_region", "C14_region_y86",
                                  "C14_preamble_ends_line", "C14_preamble_utf8",
                                  "Io.lookupIndex_spec", "Io.lineNumberAndBounds_user", "Io.showRegion_line",
-                                 "Yo.validUtf8_boundary", "Yo.validUtf8_append"]}
+                                 "Yo.validUtf8_boundary", "Yo.validUtf8_append", "C14_token_spans", "Lexer.lexStep_ok", "Lexer.handleConstant_pos"],
+            "Hcl.Tie.PinsIo": ["Tie.PinsIo.pinMarkNewlines", "Tie.PinsIo.pinFilename", "Tie.PinsIo.pinLineNumberAndBounds", "Tie.PinsIo.pinShowRegion"]}
 
 RULE = ("S-REGION: FileContents::new_from_data + show_region / line_number_and_bounds / range of the real code on small "
         "texts (ASCII and multi-byte lines, blank lines, LF / CRLF / bare CR, with and without final newline; preambles with "
